@@ -8,24 +8,9 @@ with its final table first, then its ancestors).  Per record, extracted from the
   LeakHead    every non-local symbol of a function scope is a key of the parent's `referenced_symbols` (leak invariant)
 -/
 import CalmVerif.Proofs.ObfInjTree
+import CalmVerif.Proofs.ObfFacts
 namespace CalmVerif.Obf
 open CalmVerif CalmVerif.Unparse
-
-structure Rec where
-  id : Nat
-  node : Option Path
-  chain : List Anc
-
-mutual
-  def recsOf (chain : List Anc) : STree → RTree → List Rec
-    | .mk id node kind refs decl children, .mk _ _ _ _ _ rm rcs =>
-      { id := id, node := node, chain := { kind := kind, refs := refs, decl := decl, remapped := rm } :: chain }
-        :: recsOfList ({ kind := kind, refs := refs, decl := decl, remapped := rm } :: chain) children rcs
-  def recsOfList (chain : List Anc) : List STree → List RTree → List Rec
-    | c :: cs, r :: rs => recsOf chain c r ++ recsOfList chain cs rs
-    | [], _ => []
-    | _ :: _, [] => []
-end
 
 def KeysHead : List Anc → Prop
   | A :: _ => ∀ p ∈ A.remapped, p.1 ∈ declaredBy A
